@@ -717,8 +717,8 @@ func ruleC13Gates(p *Program, r *Run) {
 	fn := FuncName(pkg, fd)
 	r.Saw(fn)
 	constVal := func(name string) string {
-		c, ok := pkg.Types.Scope().Lookup(name).(*types.Const)
-		if !ok {
+		c := p.constNamed(pkg.Types.Scope(), name)
+		if c == nil {
 			fatalf("anchor not found: const %s.%s", pkg.PkgPath, name)
 		}
 		return constKey(c.Val())
@@ -807,8 +807,29 @@ func ruleC13Parser(p *Program, r *Run) {
 	r.Floor("C13/rowcount", 1)
 	// both row-count users go through rowCount
 	rc := FuncObj(pkg, fd)
-	for _, user := range []string{"parser.takeOperator", "parser.topOperator"} {
-		ufd := p.MustFunc(pkg, user)
+	users := 0
+	for _, ufd := range AllFuncs(pkg) {
+		// every function of the parser that stores a row count
+		stores := false
+		ast.Inspect(ufd.Body, func(n ast.Node) bool {
+			switch v := n.(type) {
+			case *ast.AssignStmt:
+				for _, l := range v.Lhs {
+					if f := selField(info, l); f != nil && f.Name() == "RowCount" {
+						stores = true
+					}
+				}
+			case *ast.CompositeLit:
+				if litField(info, v, "RowCount") != nil && StructOf(info.TypeOf(v)) != nil {
+					stores = true
+				}
+			}
+			return !stores
+		})
+		if !stores {
+			continue
+		}
+		users++
 		// every value stored into RowCount is the (first) result of rowCount() - followed through temporaries
 		pc := &provClient{p: p, source: rc, field: "RowCount"}
 		ue := NewEngine(p, pkg, ufd, pc)
@@ -816,6 +837,7 @@ func ruleC13Parser(p *Program, r *Run) {
 		uses := pc.stores > 0 && pc.bad == 0 && len(ue.Errs) == 0
 		r.Check(uses, "C13/rowcount", FuncName(pkg, ufd)+" RowCount comes from rowCount()", p.Pos(ufd.Pos()), "row count parsed by the validating production", "RowCount is not parsed through rowCount(): the integer-literal check is bypassed")
 	}
+	r.Check(users >= 2, "C13/rowcount", "parser: take and top store a row count", p.Pos(fd.Pos()), fmt.Sprintf("%d functions store a row count, all through rowCount()", users), "fewer than two parser functions store a row count (take and top both have one)")
 
 	// joinOperator: flavor lookup
 	jfd := p.MustFunc(pkg, "parser.joinOperator")
